@@ -370,6 +370,7 @@ def program(r, size=3):
 # stage 9: strings (literals, concatenation with +, comparisons, ==, <=>, print).
 # stage 10: higher-order functions: functions (top-level, local closures, function parameters) passed to function
 #           parameters and called there.
+# stage 11: lambda expressions as arguments.
 
 class FragGen:
     def __init__(self, r, stage=1):
@@ -386,12 +387,23 @@ class FragGen:
         r = self.r
         h, n = r.choice(env["hofs"])
         gs = [f for f, k in env.get("funs", []) if k == 1]
-        g = r.choice(gs)
+        if self.stage >= 11 and (not gs or r.random() < 0.5):
+            # stage 4f: a lambda expression as the argument; it sees (and may change) the variables in scope
+            z = self.fresh("z")
+            lenv = {k2: list(v) for k2, v in env.items()}
+            lenv["ints"] = list(env["ints"]) + [z]
+            body = []
+            if env.get("muts") and r.random() < 0.5:
+                body.append("%s %s %s" % (r.choice(env["muts"]), r.choice(["+=", "-="]), self.int_expr(lenv, 0)))
+            body.append(self.int_expr(lenv, 1))
+            g = "fn %s: int -> int do\n%s\nend" % (z, "\n".join(body))
+        else:
+            g = r.choice(gs)
         return "%s(%s)" % (h, ", ".join([g] + [str(r.randint(0, 3)) if r.random() < 0.5 else self.int_expr(env, 0) for _ in range(n)]))
 
     def int_expr(self, env, d):
         r = self.r
-        if self.stage >= 10 and env.get("hofs") and d > 0 and r.random() < 0.25 and any(k == 1 for _, k in env.get("funs", [])):
+        if self.stage >= 10 and env.get("hofs") and d > 0 and r.random() < 0.25 and (self.stage >= 11 or any(k == 1 for _, k in env.get("funs", []))):
             return self.hof_call(env)
         if self.stage >= 4 and env.get("funs") and d > 0 and r.random() < 0.2:
             f, n = r.choice(env["funs"])
